@@ -656,6 +656,23 @@ fn check_object(oc: &ObjCheck, out: &mut Partial) {
                 Ok(_) => vio.push(("C07/decoders-disagree".into(), format!("stream decoder fed pieces of {kk} bytes differs from the sync decoder"))),
                 Err(e) => vio.push(("C07/decoders-disagree".into(), format!("stream decoder fed pieces of {kk} bytes failed: {e}; the sync decoder succeeded"))),
             }
+            // the same pieces as NON-CONTIGUOUS buffers (each piece a chain of its two halves): the stream decoder is
+            // generic over bytes::Buf, whose chunk() shows only the first contiguous part
+            {
+                use bytes::Buf;
+                *counts.entry("decoder_comparisons").or_default() += 1;
+                let all2 = bytes::Bytes::from(frame_region.to_vec());
+                let it = (0..total).step_by(kk).map(move |s| {
+                    let piece = all2.slice(s..(s + kk).min(total));
+                    let mid = piece.len() / 2;
+                    Ok::<_, std::io::Error>(piece.slice(..mid).chain(piece.slice(mid..)))
+                });
+                match futures::executor::block_on(cas_object::deserialize_async::deserialize_chunks_from_stream(futures::stream::iter(it))) {
+                    Ok(a) if a == sync => {},
+                    Ok(_) => vio.push(("C07/decoders-disagree".into(), format!("stream decoder fed pieces of {kk} bytes, each as a chain of two buffers, differs from the sync decoder"))),
+                    Err(e) => vio.push(("C07/decoders-disagree".into(), format!("stream decoder fed pieces of {kk} bytes, each as a chain of two buffers, failed: {e}; the sync decoder succeeded"))),
+                }
+            }
             if !vio.is_empty() {
                 return (vio, counts);
             }
